@@ -1139,6 +1139,23 @@ func ruleOU3(c *Ctx) {
 			chk := func(key string, evv ssa.Value, ev *Emission, what string) {
 				r := reply[key]
 				ok := r.v != nil && evv != nil && (c.Prog.canonE(r.v, r.e) == canonAt(evv, ev.Fn) || c.Prog.canonE(r.v, r.e) == canonEm(evv, ev))
+				if !ok && r.v != nil && evv != nil {
+					// a batch (`claim --count N`): the events are built for every element of a slice, front to back, and the
+					// reply reports the same field of element 0, or of every element, of that same slice
+					rs, rf, ri := elemFieldOf(resolveEnv(r.v, r.e))
+					ee := env{}
+					for k, val := range c.autoEnv(ev.Fn) {
+						ee[k] = val
+					}
+					for k, val := range ev.Env {
+						ee[k] = resolveEnv(val, c.autoEnv(ev.Fn))
+					}
+					es, ef, ei := elemFieldOf(resolveEnv(evv, ee))
+					if rs != nil && es != nil && rf == ef && ei == "range" && (ri == "0" || ri == "range") &&
+						c.Prog.canonE(rs, r.e) == c.Prog.canonE(es, ee) {
+						ok = true
+					}
+				}
 				c.check(ok, c.Name(rco), "claim-reply|"+key, c.FnPos(rco), "reply["+key+"] is the committed "+what, "the claim reply's "+key+" is not the value committed in the "+what+": the agent is told it won something the store does not record")
 			}
 			chk("id", claimEv.Fields["ID"], claimEv, "claim event's ID")
@@ -1663,4 +1680,30 @@ func embeddedField(t types.Type, i int) bool {
 	}
 	st, ok := t.Underlying().(*types.Struct)
 	return ok && i < st.NumFields() && st.Field(i).Embedded()
+}
+
+// elemFieldOf: v reads field F of the element S[i] of a slice of pointers or structs ((*S[i]).F); idx is "0" for the
+// constant 0, "range" for the element variable of a `for range S`, "" otherwise.
+func elemFieldOf(v ssa.Value) (slice ssa.Value, field string, idx string) {
+	base, name, ok := fieldLoad(v)
+	if !ok || base == nil {
+		return nil, "", ""
+	}
+	b := strip(base)
+	// pointer element: the base is a load of &S[i]
+	if u, ok := b.(*ssa.UnOp); ok && u.Op == token.MUL {
+		b = u.X
+	}
+	ia, ok := b.(*ssa.IndexAddr)
+	if !ok {
+		return nil, "", ""
+	}
+	if i, isC := constInt(ia.Index); isC && i == 0 {
+		idx = "0"
+	} else if inc, ok := ia.Index.(*ssa.BinOp); ok && inc.Op == token.ADD {
+		if ph, ok := inc.X.(*ssa.Phi); ok && rangeSliceOf(ph.Block()) == strip(ia.X) {
+			idx = "range"
+		}
+	}
+	return resolve(ia.X), name, idx
 }
